@@ -208,6 +208,45 @@ theorem next_spec_uniform (d : Dur) (a : TS) (w : Int) (hd : d.Canon) (ha : a.is
     rw [hdiff.2] at hv
     exact key _ ((w - cur) % 7) hdiff.1 hdiff.2 (by omega) (by omega) (by omega)
 
+/-- UTC accessor: the weekday of a UTC epoch is the civil weekday of its UTC date … -/
+theorem weekday_utc_own_scale (d : Dur) (hd : d.Canon) :
+    (Ep.mk d .UTC).weekdayIn .UTC = some ((d.val / 86400000000000) % 7) := by
+  unfold Ep.weekdayIn Ep.to toTimeScale
+  rw [if_pos rfl]; simp only
+  rw [weekday_of_duration d hd]
+
+/-- … and it stays that weekday when the same instant is held in any uniform scale: for a UTC epoch
+    `d` re-expressed in scale `a`, `weekday_utc` is still the civil weekday of the UTC date of `d`
+    (TAI → UTC inverts UTC → TAI, C06) -/
+theorem weekday_utc_of_converted (d : Dur) (a : TS) (hd : d.Canon) (ha : a.isUniform = true) (hs : Safe d.val) :
+    ∃ e, (Ep.mk d .UTC).to a = some e ∧ e.weekdayIn .UTC = some ((d.val / 86400000000000) % 7) := by
+  obtain ⟨r, r1, r2, r3⟩ := to_uniform_inst d .UTC a hd rfl ha hs
+  refine ⟨_, r1, ?_⟩
+  have hsd := hs
+  unfold Safe DMIN DMAX at hs; simp only [NPCs_eq] at hs
+  obtain ⟨p, p1, p2⟩ := Hifi.C06.utc_tai_utc_round_trip d hd (by unfold DMAX; simp only [NPCs_eq]; omega)
+    (by unfold DMIN; simp only [NPCs_eq]; omega)
+  -- the TAI duration of the converted epoch is the same `p`
+  have hpc : ∃ pc, toTaiDur builtin d .UTC = some pc ∧ pc.Canon ∧ pc.val = instV .UTC d.val := toTaiDur_inst d .UTC hd rfl hsd
+  obtain ⟨pc, pc1, pc2, pc3⟩ := hpc
+  have hpp : pc = p := by rw [p1] at pc1; injection pc1 with h; exact h.symm
+  subst hpp
+  have hau : a ≠ .UTC := by intro h; subst h; simp [TS.isUniform] at ha
+  obtain ⟨q, q1, q2, q3⟩ := toTaiDur_uniform builtin r a r2 ha
+  have hi := instV_bounds .UTC d.val
+  have ho := off_bounds a
+  simp only [NPCs_eq] at hi ho
+  have hq : q = pc := by
+    apply canon_unique q pc q2 pc2
+    rw [q3, r3, pc3, clampD_mid] <;> omega
+  have hto : (Ep.mk r a).to .UTC = some ⟨d, .UTC⟩ := by
+    unfold Ep.to toTimeScale
+    simp only
+    rw [if_neg (by intro h; exact hau h.symm)]
+    simp only [q1, hq, p2]
+  unfold Ep.weekdayIn; rw [hto]; simp only
+  rw [weekday_of_duration d hd]
+
 -- non-vacuity: the last nanosecond of Saturday 2023-05-06 TAI (the witness of repaired defect D17) is a Saturday
 example : (Dur.mk 1 736646399999999999).Canon ∧ weekdayOfDur ⟨1, 736646399999999999⟩ = 5 := by
   unfold Dur.Canon; simp only [NPC_eq]; decide
